@@ -128,7 +128,8 @@ def numerals(ctx, nfields):
     simk.system_files(k)
     simk.full_process(k, 77)
     f = {i: ctx.int(f"f{i}", 0, 2**64 - 1) for i in (4, 14, 15, 16, 17, 22, 39, 42)}
-    tty = ctx.choice("tty", [34816, 34817, 1025, 0, 999999])
+    # 1083392 = 0x108800: pseudo-terminal 256 (major 136, minor 256 -- the minor's upper bits sit above the major in the encoding)
+    tty = ctx.choice("tty", [34816, 34817, 1025, 0, 999999, 1083392])
     f[7] = tty
     letter = ctx.choice("state", list(STATES))
     btime = ctx.int("btime", 0, 2**40)
@@ -138,6 +139,8 @@ def numerals(ctx, nfields):
     k.stats["/dev/pts/1"] = simk.StatResult(0o020620, rdev=34817)
     k.files["/dev/tty1"] = ""
     k.stats["/dev/tty1"] = simk.StatResult(0o020620, rdev=1025)
+    k.files["/dev/pts/256"] = ""
+    k.stats["/dev/pts/256"] = simk.StatResult(0o020620, rdev=1083392)
     with k.installed():
         try:
             p = psutil.Process(77)
@@ -156,7 +159,7 @@ def numerals(ctx, nfields):
     ctx.prove(ctx.all([ctx.eq(pp, f[4]), ctx.eq(ct.user, ctx.div(f[14], CLK)), ctx.eq(ct.system, ctx.div(f[15], CLK)), ctx.eq(ct.children_user, ctx.div(f[16], CLK)),
                        ctx.eq(ct.children_system, ctx.div(f[17], CLK)), ctx.eq(ct.iowait, io), ctx.eq(cr, ctx.div(f[22], CLK) + btime), ctx.eq(cn, f[39])]), "numerals-exact")
     ctx.prove(st == WANT_STATUS.get(letter, st) and (letter in WANT_STATUS or st == "?"), "state-letter", detail=f"{letter} -> {st}")
-    ctx.prove(tt == {34816: "/dev/pts/0", 34817: "/dev/pts/1", 1025: "/dev/tty1"}.get(tty), "terminal", detail=f"{tty} -> {tt}")
+    ctx.prove(tt == {34816: "/dev/pts/0", 34817: "/dev/pts/1", 1025: "/dev/tty1", 1083392: "/dev/pts/256"}.get(tty), "terminal", detail=f"{tty} -> {tt}")
 
 
 @harness("C06.terminal_history", quick=[dict(n=2), dict(n=3)], thorough=[dict(n=2), dict(n=3), dict(n=4)])
